@@ -28,7 +28,7 @@ def configs(tier):
     out = []
     q = tier == 'quick'
     to = 15000 if q else 420000
-    bud = 200 if q else 5400
+    bud = 200 if q else 1800
     for bc in ('per', 'sym'):
         for fl in ('rusanov', 'hll'):
             out.append({'model': 'shallowwater', 'flux': fl, 'bc': bc, 'timeout_ms': max(to, 60000) if fl == 'rusanov' else to, 'budget_s': max(bud, 290), 'lemma': not q, 'guided_tries': 3000, 'guided_min_size': 5})
